@@ -215,6 +215,17 @@ func runPipelineOnce(run int, o pipeOpts, traceW *cli.NDJSONWriter) (res pipeRes
 		return
 	}
 
+	if o.faults {
+		// the table is loaded: now some slots that hold request keys change their owner, so that the first requests
+		// for them are redirected (MOVED) and trigger a refresh
+		for i := 0; i < 3; i++ {
+			c := base + 1 + rnd.Intn(o.conns)
+			key := pipeKey(c, 1+rnd.Intn(len(plans[c])), rnd.Intn(3))
+			slot := simredis.Slot([]byte(key))
+			cl.MoveSlot(slot, (cl.Owner(slot)+1)%len(cl.Nodes))
+			res.Faults = append(res.Faults, fmt.Sprintf("moveslot-before-traffic:%d", slot))
+		}
+	}
 	var tmu sync.Mutex
 	emit := func(e pipeEvent) {
 		tmu.Lock()
@@ -268,7 +279,16 @@ func runPipelineOnce(run int, o pipeOpts, traceW *cli.NDJSONWriter) (res pipeRes
 				}
 				n := cl.Nodes[r2.Intn(len(cl.Nodes))]
 				var f string
-				switch r2.Intn(6) {
+				switch r2.Intn(7) {
+				case 6:
+					// layout change: a slot that holds request keys moves to another master (with its data);
+					// requests routed by the stale table are redirected until the next refresh
+					c := base + 1 + r2.Intn(o.conns)
+					key := pipeKey(c, 1+r2.Intn(len(plans[c])), r2.Intn(3))
+					slot := simredis.Slot([]byte(key))
+					dst := (cl.Owner(slot) + 1) % len(cl.Nodes)
+					f = fmt.Sprintf("moveslot:%d->%d", slot, dst)
+					cl.MoveSlot(slot, dst)
 				case 0:
 					f = "reset:" + n.Addr
 					n.ResetConns(true)
